@@ -17,15 +17,26 @@ META = {
     "level_text": "Theorems in props/C06.v about the functions tools/pygen/attrpolicy.py regenerates from _check_attr/_access_attr on every run: "
                   "the decision equals the property's table at every point of the (finite) abstract domain - proved by kernel evaluation over enumerations "
                   "proved complete - and, lifted to concrete inputs, for every prefix, safe set, name (text, bytes, non-text) and attribute set; refusals have no effect; "
-                  "own hooks and restricted views decide instead of the configuration; every request handler reaches attributes only through _access_attr with the "
-                  "matching hook/permission/builtin; isolation for every history of opens/classic connects/closes by an invariant over a heap of configuration dicts "
-                  "with aliasing, resting on generated facts (fresh copy in __init__, on_connect writes only the given connection, no other write to any config dict "
-                  "or to the shared safe_attrs set anywhere under rpyc/). Proof is the right level: the decision domain is finite but large, the isolation clause "
-                  "quantifies over unbounded histories.",
-    "level_note": "Trusted: Coq kernel, pygen (the expression translator for _check_attr/_access_attr and the whole-tree scan for config writes), extraction + driver, "
-                  "harness. Abstraction: an object is the set of attribute names it has (hasattr = membership) plus whether its type defines _rpyc_getattr/"
-                  "_rpyc_setattr/_rpyc_delattr; what an object's own __getattr__/properties/hooks do once reached is outside; switch values are booleans; a str-subclass "
-                  "instance counts as not text (type(name) is not str).",
+                  "own hooks and restricted views decide instead of the configuration; a Service instance denies set/del on itself under every configuration "
+                  "(generated facts about class Service's hook bodies; every definition/binding of a _rpyc_*attr hook under rpyc/ is listed and tied); "
+                  "the seven request handlers that take an attribute name (cmp, getattr, delattr, setattr, callattr, ctxexit, oldslicing) reach attributes only "
+                  "through _access_attr with the matching hook/permission/builtin (c06_all_routes_checked_partial); isolation for every history of opens/classic "
+                  "connects/closes/requests by an invariant over a heap of configuration dicts with aliasing, resting on three generated facts (fresh copy in "
+                  "__init__, on_connect writes only the given connection, every write to any config dict under rpyc/ sits in __init__/on_connect so requests and "
+                  "close write none), each shown necessary by a refuted-variant theorem. Proof is the right level: the decision domain is finite but large, the "
+                  "isolation clause quantifies over unbounded histories.",
+    "level_note": "NOT covered by the policy theorems (stated in props/C06.v, c06_route_exclusions): the thirteen handlers that take no attribute name. dir returns "
+                  "the names dir(obj) lists, inspect returns names and docstrings of callables in the class dicts of type(obj) (also with allow_getattr off), pickle "
+                  "returns the whole state gated by allow_pickle alone, repr/str/hash/call/buffiter/instancecheck run the object's special methods. For these the "
+                  "harness only checks that they never write/delete, that dir/inspect do not depend on the seven switches and that pickle is refused iff allow_pickle "
+                  "is off; their bodies and lib.get_methods are shape-snapshotted. That no other code path takes a peer-chosen attribute name rests on the "
+                  "translator's syntactic scan of the handler bodies (getattr/setattr/delattr/hasattr/vars/__dict__ with a non-constant name). In the model a request "
+                  "is a no-op on configurations because of the generated whole-tree write scan (third fact), not by analysis of each handler; the harness serves "
+                  "requests of every handler kind inside histories and re-reads every configuration after each step. "
+                  "Trusted: Coq kernel, pygen (expression translator for _check_attr/_access_attr, whole-tree scans), extraction + driver, harness. Abstraction: an "
+                  "object is the set of attribute names it has (hasattr = membership) plus whether its type defines _rpyc_getattr/_rpyc_setattr/_rpyc_delattr; what "
+                  "an object's own __getattr__/properties/hooks do once reached is outside; switch values are booleans; a str-subclass instance counts as not text "
+                  "(type(name) is not str). Service subclasses written by users may override the hooks (then their hook decides, as the property says).",
     "technique": "translator tie (decision functions are generated from the code) + exhaustive kernel evaluation over a complete enumeration + invariant proof over "
                  "histories + differential correspondence of the extracted model, exhaustive over the abstract domain",
     "gen": ["attrpolicy"],
@@ -231,15 +242,23 @@ def oracle(cfg, op, nm, has, hook):
     return ("AttributeError",)
 
 
+OPEN_TIME_SITES = ("rpyc/core/protocol.py:Connection.__init__", "rpyc/core/service.py:SlaveService.on_connect")
+
+
 def gen_facts():
     """the generated facts of the tree under test (the model is run with them).  Translated afresh from C.REPO rather
     than read from coq/gen: that directory is shared with concurrently running checks of other trees."""
-    f = {"decode_guarded": False, "init_copies_defaults": True, "init_updates_own": True, "on_connect_updates_own": True}
+    import re
+    f = {"decode_guarded": False, "init_copies_defaults": True, "init_updates_own": True, "on_connect_updates_own": True,
+         "service_denies_set": True, "service_denies_del": True, "requests_leave_config": True}
     try:
         from tools.pygen import attrpolicy
         for it in attrpolicy.translate(C.REPO):
             if it.kind == "typed" and it.name in f and it.coq_term in ("true", "false"):
                 f[it.name] = it.coq_term == "true"
+            if it.kind == "typed" and it.name == "config_writes":      # Attr.writes_at_open_only
+                sites = re.findall(r'\("([^"]*)"%string, "', it.coq_term)
+                f["requests_leave_config"] = all(x in OPEN_TIME_SITES for x in sites)
     except Exception:
         pass
     return f
@@ -796,6 +815,182 @@ def restricted_model(ctx, model, pending):
                            % (case, mr, mt, sorted(untext(a) for a in mattrs), ir, log, after))
 
 
+# ---------------------------------------------------------------- a Service instance as the object
+
+def _mk_service_class(base, name):
+    ns = {}
+
+    def __getattribute__(self, n):
+        LOG.append(("get", n))
+        return object.__getattribute__(self, n)
+
+    def __setattr__(self, n, v):
+        LOG.append(("set", n))
+        object.__setattr__(self, n, v)
+
+    def __delattr__(self, n):
+        LOG.append(("del", n))
+        object.__delattr__(self, n)
+    ns.update(__getattribute__=__getattribute__, __setattr__=__setattr__, __delattr__=__delattr__)
+    return type(name, (base,), ns)
+
+
+SVC_CLASSES = {"service": _mk_service_class(S.Service, "LService"), "void": _mk_service_class(S.VoidService, "LVoid"),
+               "slave": _mk_service_class(S.SlaveService, "LSlave"), "classic": _mk_service_class(S.ClassicService, "LClassic")}
+SVC_INHERENT = {k: set(dir(c())) for k, c in SVC_CLASSES.items()}
+
+
+def service_one(ctx, pending, facts, cfg, svc, op, nm, attrs, blanket):
+    """the service root as the object of a request: it denies set/del on itself whatever the configuration"""
+    root = SVC_CLASSES[svc]()
+    attrs = sorted(set(attrs))
+    for a in attrs:
+        object.__setattr__(root, a, Callee(a))
+    conn = P.Connection(root, Ch(), dict(cfg))
+    try:
+        if blanket:                      # the blanket permissions of classic mode, on this connection
+            S.SlaveService.on_connect(root, conn) if svc in ("slave", "classic") else conn._config.update(
+                allow_all_attrs=True, allow_getattr=True, allow_setattr=True, allow_delattr=True, allow_exposed_attrs=False)
+        eff = dict(cfg)
+        for k in SW:
+            eff[k] = bool(conn._config[k])
+        res, log = run_impl(conn, op, name_value(nm), root)
+        after = sorted(object.__getattribute__(root, "__dict__"))
+    finally:
+        conn._closed = True
+    text = name_text(nm)
+    case = {"kind": "service", "switches": [int(bool(cfg[k])) for k in SW], "prefix": T(cfg["exposed_prefix"]),
+            "safe": [T(x) for x in sorted(cfg["safe_attrs"])], "svc": svc, "op": op, "name": nm, "attrs": [T(a) for a in attrs],
+            "blanket": bool(blanket)}
+    ctx.case(("service", tuple(case["switches"]), cfg["exposed_prefix"], svc, op, repr(nm), tuple(attrs), blanket), nontrivial=text is not None,
+             sample={"service_root": [svc, op, repr(name_value(nm)) if nm[0] != "other" else nm[1], attrs, blanket], "observed": list(res)})
+    ctx.count("service:%s:%s" % (op, "nottext" if text is None else "text"))
+    objlog = [e for e in log if e[0] in ("get", "set", "del")]
+
+    def bad(sig, what, expected):
+        ctx.violation(sig, case, observed={"result": res, "log": log, "attrs_after": after}, expected=expected, what=what)
+    if text is None:
+        if res != ("exc", "TypeError") or objlog or after != attrs:
+            bad("service-root:not-text-name", "non-text name on a service root did not fail with TypeError without effect", "TypeError, no effect")
+    elif op in ("set", "del"):
+        if res != ("exc", "AttributeError") or objlog or after != attrs:
+            bad("service-root:%s:not-denied" % op, "a service did not deny %s on itself (configuration: %s)" % (op, "blanket" if blanket else "as given"),
+                "AttributeError, no effect")
+    else:
+        inh = SVC_INHERENT[svc]
+        exp = oracle(eff, op, nm, lambda x: x in attrs or x in inh, False)
+        prefix = eff["exposed_prefix"]
+        if exp[0] == "AttributeError":
+            if res != ("exc", "AttributeError") or any(e != ("get", prefix + text) for e in objlog):
+                bad("service-root:get:refusal-expected", "reading a service attribute the configuration does not allow", "AttributeError, no effect")
+        elif exp[0] == "touch":
+            if not objlog or objlog[-1] != ("get", exp[1]) or (exp[1] in attrs and res != ("ok", "value:" + exp[1])):
+                bad("service-root:get:grant-expected", "reading a service attribute the configuration allows did not read the decided attribute", {"touch": exp[1]})
+    inherent = text is not None and (text in SVC_INHERENT[svc] or eff["exposed_prefix"] + text in SVC_INHERENT[svc])
+    if not inherent:
+        pending.append((case, res, log, after,
+                        ["service", int(facts["service_denies_set"]), int(facts["service_denies_del"]), int(facts["decode_guarded"]),
+                         cfg_sx(eff), PERMIDX[op], name_sx(nm), [T(a) for a in attrs]]))
+
+
+def service_model(ctx, model, pending):
+    if model is None or not pending:
+        return
+    EV = {0: "get", 1: "set", 2: "del"}
+    outs = model.batch([p[-1] for p in pending])
+    for (case, res, log, after, _), out in zip(pending, outs):
+        ctx.model_traces += 1
+        try:
+            mres, trace, mattrs = out
+        except (TypeError, ValueError):
+            ctx.tie_broken("correspondence:service", "model answered %r" % (out,))
+            continue
+        mr = ("ok",) if mres[0] == b"ok" else ("exc", mres[1].decode()) if mres[0] == b"exc" else (mres[0].decode(),)
+        ir = ("ok",) if res[0] == "ok" else res
+        mt = [(EV[e[0]], untext(e[1])) for e in trace]
+        il = [e for e in log if e[0] in ("get", "set", "del")]
+        if mr != ir or mt != il or sorted(untext(a) for a in mattrs) != after:
+            ctx.tie_broken("correspondence:service", "%r: model %r %r %r, implementation %r %r %r"
+                           % (case, mr, mt, sorted(untext(a) for a in mattrs), ir, il, after))
+
+
+def service_phase(ctx, model, facts, n):
+    r = ctx.rng
+    pending = []
+    pool = ["pub", "_priv", "exposed_m", "m", "__len__", "é", "_conn", "namespace", "exposed_namespace"]
+    # deterministic core: every service class x set/del x as-given / blanket x permissive-as-possible configuration
+    wide = cfg_dict([1, 1, 1, 1, 1, 1, 1], "exposed_", SMALL_SAFE)
+    for svc in sorted(SVC_CLASSES):
+        for op in ("set", "del", "get"):
+            for blanket in (False, True):
+                for t in ("pub", "exposed_m", "_priv"):
+                    if svc in ("slave", "classic") and t in ("pub", "exposed_m", "_priv") and False:
+                        continue
+                    attrs = ["pub", "exposed_m"] if svc in ("service", "void") else []
+                    service_one(ctx, pending, facts, wide, svc, op, ["str", T(t)], attrs, blanket)
+    for i in range(n):
+        cfg = rand_cfg(r, set(SMALL_SAFE))
+        svc = r.choice(["service", "service", "void", "slave", "classic"])
+        attrs = sorted(r.sample(pool[:6], r.randint(0, 4))) if svc in ("service", "void") else []   # Slave/Classic services have __slots__
+        k = r.random()
+        t = r.choice(pool)
+        nm = ["str", T(t)] if k < 0.8 else ["bytes", t.encode("utf8").hex()] if k < 0.9 else ["bytes", r.choice(BAD_BYTES).hex()] if k < 0.95 \
+            else ["other", r.choice(sorted(OTHER_NAMES))]
+        service_one(ctx, pending, facts, cfg, svc, r.choice(["set", "del", "get", "set", "del"]), nm, attrs, r.random() < 0.4)
+    service_model(ctx, model, pending)
+
+
+# ---------------------------------------------------------------- the handlers that take no attribute name (outside the policy)
+
+def whole_object_phase(ctx, n):
+    """dir / inspect / pickle / repr / str / hash: what they do must not depend on the seven attribute switches, must never
+    write or delete, and pickle must be refused (ValueError) exactly when allow_pickle is off"""
+    from rpyc.lib import get_id_pack
+    r = ctx.rng
+    ref = {}
+    for i in range(n):
+        cfg = rand_cfg(r, set(SMALL_SAFE))
+        cfg["allow_pickle"] = r.random() < 0.5
+        attrs = sorted(r.sample(["pub", "_priv", "exposed_y", "__len__"], r.randint(0, 4)))
+        conn = P.Connection(S.VoidService(), Ch(), dict(cfg))
+        try:
+            for h in ("dir", "inspect", "pickle", "repr", "str", "hash"):
+                o = make_obj(attrs) if h != "pickle" else ("plain", 1, b"x")
+                del LOG[:]
+                try:
+                    if h == "inspect":
+                        conn._local_objects.add(get_id_pack(o), o)
+                        del LOG[:]
+                        out = ("ok", tuple(sorted(conn._HANDLERS[consts.HANDLE_INSPECT](conn, get_id_pack(o)))))
+                    elif h == "pickle":
+                        out = ("ok", conn._HANDLERS[consts.HANDLE_PICKLE](conn, o, 2))
+                    else:
+                        out = ("ok", conn._HANDLERS[getattr(consts, "HANDLE_" + h.upper())](conn, o))
+                except Exception as e:
+                    out = ("exc", C.exc_enum(e))
+                log = [e for e in LOG if e[0] in ("get", "set", "del")]
+                case = route_case("whole-object", cfg, handler=h, attrs=[T(a) for a in attrs], allow_pickle=bool(cfg["allow_pickle"]))
+                ctx.case(("whole", h, tuple(case["switches"]), cfg["exposed_prefix"], tuple(attrs), cfg["allow_pickle"]), nontrivial=True,
+                         sample={"whole_object": h, "observed": repr(out)[:80]})
+                ctx.count("whole-object:%s:%s" % (h, out[0]))
+                if any(e[0] in ("set", "del") for e in log):
+                    ctx.violation("whole-object-route:%s:writes" % h, case, observed=log, expected="no write, no delete",
+                                  what="a request that takes no attribute name wrote or deleted an attribute")
+                if h == "pickle":
+                    if bool(cfg["allow_pickle"]) != (out[0] == "ok") or (out[0] == "exc" and out[1] != "ValueError"):
+                        ctx.violation("whole-object-route:pickle:not-gated-by-allow_pickle", case, observed=repr(out)[:120],
+                                      expected="bytes iff allow_pickle else ValueError", what="pickling is not decided by allow_pickle alone")
+                elif h in ("dir", "inspect"):
+                    # independent of the seven switches: same attribute set -> same answer under every configuration seen
+                    key = (h, tuple(attrs))
+                    val = (out, tuple(log))
+                    if ref.setdefault(key, val) != val:
+                        ctx.violation("whole-object-route:%s:depends-on-attribute-switches" % h, case, observed=repr(val)[:300],
+                                      expected=repr(ref[key])[:300], what="%s answered differently under a different attribute policy" % h)
+        finally:
+            conn._closed = True
+
+
 # ---------------------------------------------------------------- isolation: histories of connections
 
 class PresetRootConnection(P.Connection):
@@ -869,6 +1064,57 @@ def decisions(conn, cfgproj):
     return bad
 
 
+REQUEST_NAMES = ["pub", "_priv", "__len__", "exposed_y", "__secret__", "allow_all_attrs", "_config", "safe_attrs", b"pub", 5]
+
+
+def any_request(conn, r):
+    """serve one request of any kind on conn (every handler of the dispatch table that works without a peer)"""
+    o = make_obj(["pub", "_priv", "exposed_y", "_config", "allow_all_attrs"])
+    kind = r.choice(["get", "set", "del", "call", "cmp", "dir", "inspect", "pickle", "repr", "str", "hash", "call0", "ctxexit",
+                     "oldslicing", "buffiter", "getroot", "ping", "root-get", "root-set", "root-del"])
+    name = r.choice(REQUEST_NAMES)
+    H = conn._HANDLERS
+    try:
+        if kind in ("get", "set", "del", "call"):
+            run_impl(conn, kind, name, o)
+        elif kind == "cmp":
+            H[consts.HANDLE_CMP](conn, o, 3, name)
+        elif kind == "dir":
+            H[consts.HANDLE_DIR](conn, o)
+        elif kind == "inspect":
+            from rpyc.lib import get_id_pack
+            conn._local_objects.add(get_id_pack(o), o)
+            H[consts.HANDLE_INSPECT](conn, get_id_pack(o))
+        elif kind == "pickle":
+            H[consts.HANDLE_PICKLE](conn, ("a", 1), 2)
+        elif kind in ("repr", "str", "hash"):
+            H[getattr(consts, "HANDLE_" + kind.upper())](conn, o)
+        elif kind == "call0":
+            H[consts.HANDLE_CALL](conn, Callee("f"), (), ())
+        elif kind == "ctxexit":
+            H[consts.HANDLE_CTXEXIT](conn, o, None)
+        elif kind == "oldslicing":
+            H[consts.HANDLE_OLDSLICING](conn, o, name, "pub", 0, 1, ())
+        elif kind == "buffiter":
+            H[consts.HANDLE_BUFFITER](conn, iter([1, 2, 3]), 2)
+        elif kind == "getroot":
+            H[consts.HANDLE_GETROOT](conn)
+        elif kind == "ping":
+            H[consts.HANDLE_PING](conn, b"x")
+        else:   # the service root itself as the object
+            root = conn._local_root
+            if kind == "root-get":
+                H[consts.HANDLE_GETATTR](conn, root, name)
+            elif kind == "root-set":
+                H[consts.HANDLE_SETATTR](conn, root, name, 1)
+            else:
+                H[consts.HANDLE_DELATTR](conn, root, name)
+    except Exception:
+        pass        # refusals are the normal case here; what matters is what the request did to configurations
+    finally:
+        del LOG[:]
+
+
 def gen_history(r, n_ops):
     ops, nconn, live = [], 0, []
     for _ in range(n_ops):
@@ -938,7 +1184,7 @@ def run_history(ctx, ops, facts, model_cases):
             else:
                 c = conns[op[1]]
                 if not c.closed:
-                    run_impl(c, "get", "pub", make_obj(["pub"]))
+                    any_request(c, pick)
             # after every step: nobody else's policy moved, the defaults did not move
             now = [project(c._config) for c in conns]
             steps.append((now, project(P.DEFAULT_CONFIG)))
@@ -985,7 +1231,8 @@ def run_history(ctx, ops, facts, model_cases):
             mops.append([1, op[1]])
         else:
             mops.append([2, op[1]])
-    f = [int(facts["init_copies_defaults"] and facts["init_updates_own"]), int(facts["on_connect_updates_own"])]
+    f = [int(facts["init_copies_defaults"] and facts["init_updates_own"]), int(facts["on_connect_updates_own"]),
+         int(facts["requests_leave_config"])]
     model_cases.append((case, steps, ["history", f, proj_sx(project(DEFAULT_SNAPSHOT)), mops]))
 
 
@@ -1041,7 +1288,8 @@ def run(ctx):
         "random: seeded configurations with unicode/odd prefixes, real and synthetic safe sets, names built relative to prefix and safe set, "
         "bytes names with multi-byte and malformed UTF-8, hooks, attributes every object has; routes: cmp/ctxexit/oldslicing; restricted(): random "
         "read/write lists in five container types; histories: seeded sequences of open (own dict, shared dict object, plain/slave/classic service), "
-        "close and requests, every connection checked after every step. Non-trivial = text name with the operation's switch on (or own hook) for "
+        "close and requests of every handler kind (also on the service root), every connection checked after every step; service roots: every Service "
+        "class x read/write/delete x configuration as given / blanket; whole-object handlers (dir/inspect/pickle/repr/str/hash) under random policies. Non-trivial = text name with the operation's switch on (or own hook) for "
         "decisions; >= 2 connections for histories; distinct by the full canonical case.") % ("" if ctx.quick else ", 'x_', '_', 'é_'")
     b = Batch(ctx, model, facts)
     sweep(ctx, b, ["exposed_", ""] if ctx.quick else ["exposed_", "", "x_", "_", "é_"], not ctx.quick)
@@ -1049,6 +1297,8 @@ def run(ctx):
     b.finish()
     routes_phase(ctx, 250 if ctx.quick else 5000)
     restricted_phase(ctx, model, facts, 600 if ctx.quick else 20000)
+    service_phase(ctx, model, facts, 500 if ctx.quick else 10000)
+    whole_object_phase(ctx, 120 if ctx.quick else 2000)
     history_phase(ctx, model, facts, 150 if ctx.quick else 1500, 12 if ctx.quick else 60)
 
 
@@ -1070,6 +1320,13 @@ def replay(ctx, rep):
                        None if case["wattrs"] is None else [untext(a) for a in case["wattrs"]],
                        [untext(a) for a in case["uattrs"]], facts, case.get("container", "set"))
         restricted_model(ctx, model, pending)
+    elif kind == "service":
+        pending = []
+        cfg = cfg_dict(case["switches"], untext(case["prefix"]), [untext(x) for x in case["safe"]])
+        service_one(ctx, pending, facts, cfg, case["svc"], case["op"], case["name"], [untext(a) for a in case["attrs"]], case["blanket"])
+        service_model(ctx, model, pending)
+    elif kind == "whole-object":
+        whole_object_phase(ctx, 120)       # cheap and seed-determined: rerun the phase
     elif kind == "history":
         pending = []
         run_history(ctx, case["ops"], facts, pending)
